@@ -71,7 +71,7 @@ PROPS = {
     },
     'C08': {
         'verus': [r'^date :: impl Date / fn (add_days|sub_days|sub_date|add_interval_dt|sub_interval_dt|add_time|sub_time|sub_timestamp)$',
-                  r'^timestamp :: impl Timestamp / fn (add_interval_dt|sub_interval_dt|add_time|sub_time|sub_date|sub_timestamp|try_from_usecs)$',
+                  r'^timestamp :: impl Timestamp / fn (add_interval_dt|sub_interval_dt|add_time|sub_time|sub_date|sub_timestamp|try_from_usecs|add_days|sub_days)$',
                   r'^interval :: impl IntervalYM / fn (add_interval_ym|sub_interval_ym|negate|try_from_months)$',
                   r'^interval :: impl IntervalDT / fn (add_interval_dt|sub_interval_dt|sub_time|negate|try_from_usecs)$',
                   r'^oracle :: impl Date / fn (add_time|sub_time|sub_timestamp)$', r'^oracle :: impl Timestamp / fn oracle_sub_date$',
@@ -110,7 +110,9 @@ PROPS = {
                   r'^interval :: const ', r'^interval :: proof fn lemma_ext$', r'^laws :: fn law_c13_'],
         'kinds': FUNCTIONAL,
     },
-    'C14': {'verus': [], 'kinds': FUNCTIONAL},
+    'C14': {'verus': [r'^interval :: impl Interval(YM|DT) / fn (mul_f64|div_f64)$', r'^time :: impl Time / fn (mul_f64|div_f64)$',
+                      r'^interval :: impl Interval(YM|DT) / fn (try_from_months|try_from_usecs)$'],
+            'kinds': FUNCTIONAL},
     'C15': {'verus': [r'^laws :: fn law_c15_', r'^laws :: fn law_c06_',
                       r'^(date|time|timestamp|interval|oracle) :: impl (Date|Time|Timestamp|IntervalYM|IntervalDT) / fn (try_from_days|try_from_usecs|try_from_months)$',
                       # the human-readable payload is decoded by the shared parser and ends in these checked constructors
